@@ -18,8 +18,11 @@ import logging  # noqa: E402
 
 import repid  # noqa: E402,F401
 
-logging.getLogger("repid").setLevel(logging.CRITICAL + 10)
-logging.getLogger("repid").disabled = True
+# the library's logger as an application that configures nothing has it: records from WARNING upwards are processed
+# (formatted by repid's adapter) and go to the NullHandler; VERIF_REPID_LOG=DEBUG processes every record (the thorough tier
+# runs one of its rounds that way)
+logging.getLogger("repid").setLevel(getattr(logging, os.environ.get("VERIF_REPID_LOG", "WARNING")))
+logging.getLogger("repid").propagate = False
 logging.getLogger("asyncio").setLevel(logging.CRITICAL + 10)
 
 assert os.path.realpath(repid.__file__).startswith(os.path.realpath(str(REPO))), (
